@@ -12,6 +12,8 @@
 // counted, never judged. A second phase (conc.go) drives one instance from several goroutines and
 // compares it with a sequentially driven one, in child processes that carry the race detector when
 // the binary was built with -race; a third (kill.go) kills a child inside a call on the real store.
+// A few histories (golden.go) put instance B on a copy of a data directory recorded from an earlier
+// build - the restart of an upgraded node - while the fresh instance A executes the recorded blocks too.
 //
 // Generator regions (decided at generation time, DESIGN §4):
 //
@@ -56,7 +58,7 @@ import (
 // Level is the verification level claimed for this property.
 const Level = "exploration"
 
-var shapedReported atomic.Int64
+var shapedReported, goldenReported atomic.Int64
 
 // FindingID is the finding whose trigger region is "SetFinal was called before a root was observed".
 const FindingID = "C15-setfinal-in-root"
@@ -123,7 +125,7 @@ func rootsOf(ops []Op, obs []Obs) []string {
 	return out
 }
 
-func runHistory(r *vk.Run, base string, h History, fhReserved, canClose bool, book *verdictBook) {
+func runHistory(r *vk.Run, base string, h History, fhReserved, canClose bool, book *verdictBook, gold *goldenFile) {
 	dir := filepath.Join(base, fmt.Sprintf("h%d", h.ID))
 	if err := os.MkdirAll(dir, 0o755); err != nil {
 		r.Inconclusive("mkdir: " + err.Error())
@@ -134,7 +136,31 @@ func runHistory(r *vk.Run, base string, h History, fhReserved, canClose bool, bo
 	var obsA, obsB []Obs
 	var errA, errB error
 	child := h.Child || !canClose
-	if child {
+	if h.Golden > 0 {
+		// instance B starts on a private copy of the recorded data directory, with the driver state of the record
+		if err := gold.unpack(dir); err != nil {
+			r.Inconclusive(fmt.Sprintf("history %d: unpacking the recorded data directory: %v", h.ID, err))
+			return
+		}
+		rs := gold.Resume
+		rs.First = map[int]FirstExec{} // private to this history (the recorded blocks are never offered again)
+		for k, v := range gold.Resume.First {
+			rs.First[k] = v
+		}
+		if child {
+			var sa, ra, rb int
+			obsA, sa, ra, errA = runInChildren(dir, "a", h.Blocks, h.OpsA)
+			obsB, _, rb, errB = runInChildrenFrom(dir, goldenSub, h.Blocks, h.OpsB, rs)
+			r.Count("child_process_segments", int64(sa))
+			if ra+rb > 0 {
+				r.Count("first_open_after_unclean_exit_failed_on_zero_length_wal", int64(ra+rb))
+			}
+		} else {
+			obsA, errA = runInProcess(ctx, dir, "a", h.Blocks, h.OpsA)
+			obsB, errB = runInProcessFrom(ctx, dir, goldenSub, h.Blocks, h.OpsB, &rs)
+		}
+		r.Count("histories_on_recorded_data_directory", 1)
+	} else if child {
 		var sa, sb, ra, rb int
 		obsA, sa, ra, errA = runInChildren(dir, "a", h.Blocks, h.OpsA)
 		obsB, sb, rb, errB = runInChildren(dir, "b", h.Blocks, h.OpsB)
@@ -148,8 +174,13 @@ func runHistory(r *vk.Run, base string, h History, fhReserved, canClose bool, bo
 		obsB, errB = runInProcess(ctx, dir, "b", h.Blocks, h.OpsB)
 	}
 	witness := func() any {
-		return map[string]any{"history": h, "finalizedHeight_tx_refused": fhReserved,
+		w := map[string]any{"history": h, "finalizedHeight_tx_refused": fhReserved,
 			"observed_a": rootsOf(h.OpsA, obsA), "observed_b": rootsOf(h.OpsB, obsB)}
+		if h.Golden > 0 {
+			w["instance_b"] = fmt.Sprintf("opened on a copy of %s/datadir.tar.gz: the data directory an earlier build left after the calls below (blocks 0-%d of the history)", goldenDir(), h.Golden-1)
+			w["recorded_calls"] = rootsOf(gold.Ops, gold.Obs)
+		}
+		return w
 	}
 	for _, e := range []error{errA, errB} {
 		if e == nil {
@@ -177,7 +208,15 @@ func runHistory(r *vk.Run, base string, h History, fhReserved, canClose bool, bo
 		r.Violation("reopen", fmt.Sprintf("history %d: %v", h.ID, e), witness())
 		return
 	}
-	probs := judgeHistory(h, obsA, obsB, fhReserved, book, r.Hit, func(n string) { r.Count(n, 1) })
+	var probs []problem
+	if h.Golden > 0 {
+		probs = judgeGolden(h, gold, obsA, obsB, fhReserved, book, r.Hit, func(n string) { r.Count(n, 1) })
+		for i := range probs {
+			probs[i].detail += " [instance B runs on a copy of the recorded data directory of an earlier build, which holds blocks " + fmt.Sprintf("0-%d", h.Golden-1) + "; instance A is fresh]"
+		}
+	} else {
+		probs = judgeHistory(h, obsA, obsB, fhReserved, book, r.Hit, func(n string) { r.Count(n, 1) })
+	}
 	var other, shaped, old []problem
 	for _, p := range probs {
 		if p.finding == OldReexecFindingID {
@@ -188,7 +227,14 @@ func runHistory(r *vk.Run, base string, h History, fhReserved, canClose bool, bo
 			other = append(other, p)
 		}
 	}
-	if len(other) > 0 {
+	if len(other) > 0 && h.Golden > 0 {
+		// OBSERVED, NOT JUDGED: the statement quantifies over call histories on two instances of the code under test; a
+		// data directory left by an EARLIER build is an upgrade, which it does not mention. A build that lays its data
+		// out differently (without migrating a test application's old directories) keeps the property, so a difference
+		// here is counted in the evidence and reported on stdout as a note, never as a violation.
+		goldenReported.Add(1)
+		r.Count("histories_on_recorded_data_directory_of_an_earlier_build_that_differ_from_a_fresh_instance", 1)
+	} else if len(other) > 0 {
 		ds := make([]string, 0, len(other))
 		for _, p := range other {
 			ds = append(ds, p.detail)
@@ -231,6 +277,9 @@ func runHistory(r *vk.Run, base string, h History, fhReserved, canClose bool, bo
 // Run is the check entry point.
 func Run(r *vk.Run) {
 	world.Silence()
+	if os.Getenv("VERIF_C15_WRITE_GOLDEN") == "1" {
+		os.Exit(writeGolden())
+	}
 	if p := os.Getenv("C15_DEV_HEAPPROF"); p != "" {
 		// development aid: heap profile after 12 s
 		go func() {
@@ -241,10 +290,11 @@ func Run(r *vk.Run) {
 			}
 		}()
 	}
-	r.Rule = "(1) seeded histories of 5-40 blocks (1-5 'key=value' txs over a 15-key alphabet with path aliases, padding and reserved look-alikes; 18% refused blocks: no '=', empty or blank key, genesis key aliases, always behind state-changing valid txs, some in blocks of 63-1025 txs) executed on two real KVExecutor instances with independently generated call sequences (InitChain placement/repeats, SetFinal policy each|lag2|sparse|late|never|early, InjectTx/GetTxs incl. the block's own txs, reopen in process or by child processes, re-execution of the tip block, re-execution of an older block in 1 history of 6, refused block offered or not, empty-block observations); regions: clean (no SetFinal, no tx on /finalizedHeight), setfinal (different SetFinal timing), fhtx (txs writing /finalizedHeight); (2) concurrent cases: one instance executes 8-15 blocks (large refused and large valid ones among them) while other goroutines call SetFinal / InjectTx / GetTxs / InitChain without pause, compared block by block with an instance fed the same blocks alone, in child processes (race detector when built with -race); (3) kill cases: a child process is killed at every write of a call sequence on the real store (before / after the write), a new process reopens, initialises and continues. non-trivial = >=1 refused block, reopen or SetFinal (1); every kind of background call overlapped an execution (2); the cut was reached (3); distinct by region + block kinds + call-kind sequence of both instances, resp. block kinds, resp. cut position"
+	r.Rule = "(1) seeded histories of 5-40 blocks (1-5 'key=value' txs over a 15-key alphabet with path aliases, padding and reserved look-alikes; 18% refused blocks: no '=', empty or blank key, genesis key aliases, always behind state-changing valid txs, some in blocks of 63-1025 txs) executed on two real KVExecutor instances with independently generated call sequences (InitChain placement/repeats, SetFinal policy each|lag2|sparse|late|never|early, InjectTx/GetTxs incl. the block's own txs, reopen in process or by child processes, re-execution of the tip block, re-execution of an older block in 1 history of 6, refused block offered or not, empty-block observations); regions: clean (no SetFinal, no tx on /finalizedHeight), setfinal (different SetFinal timing), fhtx (txs writing /finalizedHeight); plus histories in which instance B is opened on a copy of the data directory an earlier build left behind (golden/c15: InitChain, 6 blocks, SetFinal, clean close) and executes 2-9 new blocks, against a fresh instance A that executes the recorded blocks and the new ones; (2) concurrent cases: one instance executes 8-15 blocks (large refused and large valid ones among them) while other goroutines call SetFinal / InjectTx / GetTxs / InitChain without pause, compared block by block with an instance fed the same blocks alone, in child processes (race detector when built with -race); (3) kill cases: a child process is killed at every write of a call sequence on the real store (before / after the write), a new process reopens, initialises and continues. non-trivial = >=1 refused block, reopen or SetFinal (1); every kind of background call overlapped an execution (2); the cut was reached (3); distinct by region + block kinds + call-kind sequence of both instances, resp. block kinds, resp. cut position"
 	r.Assume("the deciding oracle is relational: the root first seen for a canonical history (ordered txs of all accepted first executions; empty blocks and block boundaries do not count) must be seen again whenever that history recurs; the reference model (sorted 'key:value;' over path-normalised keys) is a second opinion: clause model-agrees / counters model_*_not_judged")
 	r.Assume("malformed = no '=' or nothing before the first '=' (documented format); every other transaction string is held to ONE verdict: offered alone on a scratch instance once, remembered, and compared with every block verdict")
 	r.Assume("restart of this type = new KVExecutor on the same directory; in-process after closing the private Badger handle by reflection (KVExecutor has no Close), and for a sample of histories by successive child processes that exit without closing")
+	r.Assume("the recorded data directory stands for 'written by an earlier build': it was produced once by the pinned tree and is opened through NewKVExecutor like any other; the roots in its record are driver input (previous-root argument) and never compared; the value InitChain returns on it is not judged, only that the call succeeds and repeats itself")
 	r.Assume("process exit / process kill, not power loss: Badger's unsynced writes live in the page cache")
 	base := world.TempDir(vk.Root(), "C15-*")
 	defer os.RemoveAll(base)
@@ -265,6 +315,7 @@ func Run(r *vk.Run) {
 		r.Require("reopen-keeps-root", min/3)
 		r.Require("root-unaffected-by-setfinal", min)
 		r.Require("root-unaffected-by-mempool", min)
+		r.Require("golden-datadir-equals-fresh", int64(r.N(24, 400))*3)
 	}
 	if phase("conc") {
 		concurrentPhase(r, base)
@@ -370,6 +421,17 @@ func sequentialPhases(r *vk.Run, base string) {
 	for i := range hs {
 		hs[i] = g.history(i, r.Quick())
 	}
+	// histories on the recorded data directory of an earlier build (golden.go), from a generator of their own so
+	// that the case list above does not depend on them
+	gold, err := loadGolden()
+	if err != nil {
+		r.Inconclusive(err.Error() + " (expected below " + goldenDir() + ")")
+	} else {
+		gg := &gen{rng: r.Rand("recorded-datadir"), ctr: 1 << 20}
+		for i, ng := 0, r.N(24, 400); i < ng; i++ {
+			hs = append(hs, gg.goldenHistory(n+i, gold))
+		}
+	}
 
 	var wg sync.WaitGroup
 	ch := make(chan History)
@@ -378,7 +440,7 @@ func sequentialPhases(r *vk.Run, base string) {
 		go func() {
 			defer wg.Done()
 			for h := range ch {
-				r.Guard(map[string]any{"history": h.ID}, func() { runHistory(r, base, h, fhReserved, canClose, book) })
+				r.Guard(map[string]any{"history": h.ID}, func() { runHistory(r, base, h, fhReserved, canClose, book, gold) })
 			}
 		}()
 	}
